@@ -65,7 +65,8 @@ Fixpoint wfb (e : expr) : bool :=
 
 Definition ladder_wf (e : expr) : Prop := wfb e = true.
 
-(* Known class 1: a slice with absent end and present step (printed with the `::` token) *)
+(* a slice with absent end and present step (printed with the `::` token); no longer a finding class
+   since the parser accepts `::` inside brackets (/repo 974c053) *)
 Fixpoint has_cc (e : expr) : bool :=
   match e with
   | EIdent _ | ELit _ | ESelf => false
